@@ -487,7 +487,8 @@ def format_family(tier):
     s = harness('replay_format', ['--in', m['out'], '--out', out, '--pdf-every', '1'])
     r = {'name': key, 'tlc': m, 'summary': s, 'findings': read_ndjson(out), 'obs': None}
     log(f'[replay] MC_Format: {s["counters"].get("values", 0)} values ({s["counters"].get("pdf_values", 0)} through the PDF), '
-        f'{s["counters"].get("labels", 0)} labels, {s["findings"]} deviations')
+        f'{s["counters"].get("labels", 0)} labels, {s["counters"].get("echoes", 0)} transaction/event echoes '
+        f'({s["counters"].get("mixed_currency_echoes", 0)} with fee and price in different currencies), {s["findings"]} deviations')
     _family_cache[key] = r
     return r
 
